@@ -320,9 +320,14 @@ def main(argv):
             bm = importlib.import_module(bname)
             old_h = _signal.signal(_signal.SIGALRM, _hang)
             _signal.alarm(limit)
+            # the real code runs under the interpreter's DEFAULT recursion limit, as it does for its users (the engine raises
+            # the limit for its own recursion; a change that recurses once per chip or per vertex must not be hidden by that)
+            old_rec = sys.getrecursionlimit()
+            sys.setrecursionlimit(1000)
             try:
                 br = bm.run(tier=tier, seed=seed)
             finally:
+                sys.setrecursionlimit(old_rec)
                 _signal.alarm(0)
                 _signal.signal(_signal.SIGALRM, old_h)
         except _Hang:
